@@ -830,6 +830,9 @@ func replayC01(o *Obligation) (string, string, string, bool) {
 	if strings.HasPrefix(o.Name, "stream.") {
 		return "serializer", "stream", streamReplay(o.Kind == "make" || o.Kind == "alloc"), true
 	}
+	if strings.HasPrefix(o.Name, "serix.") {
+		return "serializer", "serix", replaySerixRoundTrip, true
+	}
 	if !strings.HasPrefix(o.Name, "v2.") {
 		return "", "", "", false
 	}
@@ -1183,8 +1186,44 @@ func roundTripChecks(t *testing.T) {
 		}
 		// collection of sized items
 		buf.Reset()
-		ws := &ByteBuffer{}
-		_ = ws
+	}
+	// WriteCollection into a fresh and into a pre-sized seekable target (bytes behind the write position), followed by a
+	// trailer: the stream reads back as count, elements, trailer
+	for _, initial := range []int{0, 3, 64} {
+		for _, lt := range []serializer.SeriLengthPrefixType{serializer.SeriLengthPrefixTypeAsByte, serializer.SeriLengthPrefixTypeAsUint16, serializer.SeriLengthPrefixTypeAsUint32, serializer.SeriLengthPrefixTypeAsUint64} {
+			for _, n := range []int{0, 1, 5} {
+				ws := NewByteBuffer(initial)
+				if err := WriteCollection(ws, lt, func() (int, error) {
+					for i := 0; i < n; i++ {
+						if err := Write(ws, uint16(1000+i)); err != nil {
+							return 0, err
+						}
+					}
+					return n, nil
+				}); err != nil {
+					fail("WriteCollection(%d elements, prefix type %d) into NewByteBuffer(%d): %v", n, lt, initial, err)
+				}
+				if err := Write(ws, uint32(0xfeedbeef)); err != nil {
+					fail("Write after WriteCollection: %v", err)
+				}
+				data, _ := ws.Bytes()
+				r := bytes.NewReader(data)
+				seen := 0
+				if err := ReadCollection(r, lt, func(i int) error {
+					v, err := Read[uint16](r)
+					if err != nil || int(v) != 1000+i {
+						fail("element %d of a collection of %d written into NewByteBuffer(%d) reads back as %d, %v (stream % x)", i, n, initial, v, err, data)
+					}
+					seen++
+					return nil
+				}); err != nil || seen != n {
+					fail("ReadCollection of %d elements written into NewByteBuffer(%d): %d elements, %v (stream % x)", n, initial, seen, err, data)
+				}
+				if tr, err := Read[uint32](r); err != nil || tr != 0xfeedbeef {
+					fail("what was written after a collection of %d elements (prefix type %d, target NewByteBuffer(%d)) does not follow it: read %#x, %v (stream % x)", n, lt, initial, tr, err, data)
+				}
+			}
+		}
 	}
 }
 
@@ -2338,6 +2377,7 @@ import (
 	"math/rand"
 	"sort"
 	"sync"
+	"sync/atomic"
 	"testing"
 	"time"
 
@@ -2574,6 +2614,149 @@ func TestVerifReplay(t *testing.T) {
 			}
 		}
 	}
+
+	// (7) DerivedVariable of 2..4 inputs, forced interleaving: a writer of input k is held right after it has read input j
+	// while a second writer changes input j (and gets 300ms to finish, which it can only do if the read happened outside
+	// the derived variable's locked computation); once both have returned the value equals compute(inputs)
+	for n := 2; n <= 4; n++ {
+		for k := 0; k < n; k++ {
+			for j := 0; j < n; j++ {
+				if j == k {
+					continue
+				}
+				in := make([]*rpPausing, n)
+				for i := range in {
+					in[i] = &rpPausing{Variable: NewVariable[int]()}
+				}
+				val := func() int {
+					r := 0
+					for i := range in {
+						r = r*10 + in[i].Variable.Get()
+					}
+					return r
+				}
+				var d DerivedVariable[int]
+				switch n {
+				case 2:
+					d = NewDerivedVariable2[int](func(_ int, a, b int) int { return a*10 + b }, in[0], in[1])
+				case 3:
+					d = NewDerivedVariable3[int](func(_ int, a, b, c int) int { return a*100 + b*10 + c }, in[0], in[1], in[2])
+				case 4:
+					d = NewDerivedVariable4[int](func(_ int, a, b, c, e int) int { return a*1000 + b*100 + c*10 + e }, in[0], in[1], in[2], in[3])
+				}
+				w2 := make(chan struct{})
+				in[j].arm(func() {
+					go func() { defer close(w2); in[j].Set(2) }()
+					select {
+					case <-w2:
+					case <-time.After(300 * time.Millisecond):
+					}
+				})
+				w1 := make(chan struct{})
+				go func() { defer close(w1); in[k].Set(1) }()
+				for _, c := range []chan struct{}{w1, w2} {
+					select {
+					case <-c:
+					case <-time.After(10 * time.Second):
+						fail("DerivedVariable%d: writers of inputs %d and %d do not return", n, k+1, j+1)
+					}
+				}
+				if d.Get() != val() {
+					fail("DerivedVariable%d = %d after a writer of input %d (which read input %d before a second writer changed it) and that second writer returned; compute(inputs) = %d", n, d.Get(), k+1, j+1, val())
+				}
+				d.Unsubscribe()
+			}
+		}
+	}
+
+	// (8) SubtractReactive, forced interleaving: element 1 is in the source and in the subtracted set. Writer B deletes it
+	// from the subtracted set; right after the result's subscription has counted that deletion, writer A deletes it from
+	// the source (and gets 300ms to return, which it can only do if the counting happens outside the result's Compute)
+	{
+		source := NewSet[int]()
+		source.Add(1)
+		source.Add(2)
+		other := &rpPausingSet{Set: NewSet[int]()}
+		other.Add(1)
+		result := source.SubtractReactive(other)
+		aDone := make(chan struct{})
+		other.arm(func() {
+			go func() { defer close(aDone); source.Delete(1) }()
+			select {
+			case <-aDone:
+			case <-time.After(300 * time.Millisecond):
+			}
+		})
+		bDone := make(chan struct{})
+		go func() { defer close(bDone); other.Delete(1) }()
+		for _, c := range []chan struct{}{bDone, aDone} {
+			select {
+			case <-c:
+			case <-time.After(10 * time.Second):
+				fail("SubtractReactive: writers of the source and of the subtracted set do not return")
+			}
+		}
+		expected := ds.NewSet[int]()
+		source.Range(func(e int) {
+			if !other.Has(e) {
+				expected.Add(e)
+			}
+		})
+		if !result.Equals(expected) {
+			fail("SubtractReactive after concurrent writers returned: result = %v, source = %v minus other = %v is %v", result.ToSlice(), source.ToSlice(), other.ToSlice(), expected.ToSlice())
+		}
+	}
+}
+
+// a subtracted set whose subscribers see mutations that run a hook after the deleted elements have been ranged over
+type rpPausingSet struct {
+	Set[int]
+	armed atomic.Bool
+	hook  func()
+}
+
+func (p *rpPausingSet) arm(hook func()) { p.hook = hook; p.armed.Store(true) }
+
+func (p *rpPausingSet) OnUpdate(callback func(ds.SetMutations[int]), trig ...bool) func() {
+	return p.Set.OnUpdate(func(m ds.SetMutations[int]) { callback(&rpPausingMutations{SetMutations: m, owner: p}) }, trig...)
+}
+
+type rpPausingMutations struct {
+	ds.SetMutations[int]
+	owner *rpPausingSet
+}
+
+func (p *rpPausingMutations) DeletedElements() ds.Set[int] {
+	return &rpPausingElements{Set: p.SetMutations.DeletedElements(), owner: p.owner}
+}
+
+type rpPausingElements struct {
+	ds.Set[int]
+	owner *rpPausingSet
+}
+
+func (p *rpPausingElements) Range(callback func(int)) {
+	p.Set.Range(callback)
+	if !p.Set.IsEmpty() && p.owner.armed.CompareAndSwap(true, false) {
+		p.owner.hook()
+	}
+}
+
+// an input whose first Get after arm runs a hook between reading the value and returning it
+type rpPausing struct {
+	Variable[int]
+	armed atomic.Bool
+	hook  func()
+}
+
+func (p *rpPausing) arm(hook func()) { p.hook = hook; p.armed.Store(true) }
+
+func (p *rpPausing) Get() int {
+	v := p.Variable.Get()
+	if p.armed.CompareAndSwap(true, false) {
+		p.hook()
+	}
+	return v
 }
 `
 	return "ds", "reactive", src, true
@@ -2897,3 +3080,141 @@ func TestVerifReplay(t *testing.T) {
 `
 	return "runtime", "syncutils", src, true
 }
+
+// serix round trips (C01): maps in the binary form are canonical (entries in byte-lexical order whatever the rules on
+// the field) and round-trip; the JSON / map form of multi-entry maps with slice and map elements round-trips
+const replaySerixRoundTrip = `package serix
+
+import (
+	"bytes"
+	"context"
+	"encoding/binary"
+	"reflect"
+	"sort"
+	"testing"
+)
+
+type rpBoundedMap struct {
+	Balances map[uint32]uint16 ` + "`" + `serix:",lenPrefix=uint16,minLen=1,maxLen=200"` + "`" + `
+}
+
+type rpPlainMap struct {
+	Balances map[uint32]uint16 ` + "`" + `serix:",lenPrefix=uint16"` + "`" + `
+}
+
+type rpDirectory struct {
+	Names  map[string]string            ` + "`" + `serix:""` + "`" + `
+	Tags   map[string][]string          ` + "`" + `serix:""` + "`" + `
+	Quotas map[string]map[string]uint64 ` + "`" + `serix:""` + "`" + `
+}
+
+func rpCanonical(m map[uint32]uint16) []byte {
+	entries := make([][]byte, 0, len(m))
+	for k, v := range m {
+		e := make([]byte, 6)
+		binary.LittleEndian.PutUint32(e, k)
+		binary.LittleEndian.PutUint16(e[4:], v)
+		entries = append(entries, e)
+	}
+	sort.Slice(entries, func(i, j int) bool { return bytes.Compare(entries[i], entries[j]) < 0 })
+	out := make([]byte, 2)
+	binary.LittleEndian.PutUint16(out, uint16(len(m)))
+	for _, e := range entries {
+		out = append(out, e...)
+	}
+	return out
+}
+
+func TestVerifReplay(t *testing.T) {
+	fail := func(format string, a ...any) { t.Fatalf("REPLAY-VIOLATION "+format, a...) }
+	api := NewAPI()
+	ctx := context.Background()
+	newMap := func() map[uint32]uint16 {
+		m := make(map[uint32]uint16)
+		for i := 0; i < 64; i++ {
+			m[uint32(i)*2654435761] = uint16(i % 7) // equal values under different keys
+		}
+		return m
+	}
+	for _, validation := range []bool{false, true} {
+		var opts []Option
+		if validation {
+			opts = append(opts, WithValidation())
+		}
+		for round := 0; round < 16; round++ {
+			plain := &rpPlainMap{Balances: newMap()}
+			pb, err := api.Encode(ctx, plain, opts...)
+			if err != nil || !bytes.Equal(pb, rpCanonical(plain.Balances)) {
+				fail("Encode of a map field (validation %v): %v, entries in byte-lexical order: %v", validation, err, bytes.Equal(pb, rpCanonical(plain.Balances)))
+			}
+			bounded := &rpBoundedMap{Balances: newMap()}
+			bb, err := api.Encode(ctx, bounded, opts...)
+			if err != nil {
+				fail("Encode of a map field with min/max length rules (validation %v): %v", validation, err)
+			}
+			if !bytes.Equal(bb, rpCanonical(bounded.Balances)) {
+				fail("Encode of a map field with min/max length rules (validation %v, round %d): entries are not in byte-lexical order (the encoding depends on Go's map iteration order)", validation, round)
+			}
+			back := &rpBoundedMap{}
+			n, err := api.Decode(ctx, bb, back, opts...)
+			if err != nil || n != len(bb) || !reflect.DeepEqual(back, bounded) {
+				fail("Decode(Encode(map with rules)) (validation %v): consumed %d of %d, err %v, equal %v", validation, n, len(bb), err, reflect.DeepEqual(back, bounded))
+			}
+		}
+		// canonical bytes only (C03): whatever Decode accepts re-encodes to exactly the bytes consumed - in particular a
+		// repeated key and (with validation) entries out of byte-lexical order are rejected
+		entry := func(k uint32, v uint16) []byte {
+			e := make([]byte, 6)
+			binary.LittleEndian.PutUint32(e, k)
+			binary.LittleEndian.PutUint16(e[4:], v)
+			return e
+		}
+		for _, doc := range [][][]byte{
+			{entry(1, 1), entry(1, 1)},
+			{entry(1, 1), entry(1, 2)},
+			{entry(1, 2), entry(1, 1)},
+			{entry(2, 1), entry(1, 1)},
+			{entry(1, 1), entry(2, 1), entry(1, 3)},
+			{entry(1, 1), entry(2, 1)},
+		} {
+			b := []byte{byte(len(doc)), 0}
+			for _, e := range doc {
+				b = append(b, e...)
+			}
+			got := &rpPlainMap{}
+			n, err := api.Decode(ctx, b, got, opts...)
+			if err != nil {
+				continue
+			}
+			if !validation {
+				if len(got.Balances) != len(doc) {
+					fail("Decode accepts % x (%d entries) and yields a map of %d entries: a repeated key overwrote an entry", b, len(doc), len(got.Balances))
+				}
+				continue
+			}
+			re, err := api.Encode(ctx, got, opts...)
+			if err != nil || n != len(b) || !bytes.Equal(re, b[:n]) {
+				fail("validated Decode accepts % x (consumed %d) but re-encoding the decoded value gives % x, %v", b, n, re, err)
+			}
+		}
+		src := &rpDirectory{
+			Names:  map[string]string{"a": "alice", "b": "bob", "c": "carol"},
+			Tags:   map[string][]string{"a": {"red"}, "b": {"green"}, "c": {"blue"}},
+			Quotas: map[string]map[string]uint64{"a": {"disk": 1}, "b": {"cpu": 2}, "c": {"mem": 3}},
+		}
+		for round := 0; round < 8; round++ {
+			js, err := api.JSONEncode(ctx, src, opts...)
+			if err != nil {
+				fail("JSONEncode: %v", err)
+			}
+			dst := new(rpDirectory)
+			if err := api.JSONDecode(ctx, js, dst, opts...); err != nil {
+				fail("JSONDecode(JSONEncode(x)) (validation %v) of %s: %v", validation, js, err)
+			}
+			if !reflect.DeepEqual(src, dst) {
+				fail("JSONDecode(JSONEncode(x)) != x (validation %v): document %s decodes to Names %v Tags %v Quotas %v", validation, js, dst.Names, dst.Tags, dst.Quotas)
+			}
+		}
+	}
+}
+` + ""
